@@ -272,6 +272,12 @@ fn flatten_case(src: &mut Src, ctx: &mut Ctx) -> Result<(), String> {
     ctx.sample("cell hierarchy", || format!("{:?}", cells));
     let cell = ptrs[top].read().unwrap();
     let flat = cell.layout.as_ref().unwrap().flatten().map_err(|e| format!("flatten failed: {:?}", e))?;
+    // flattening reads the hierarchy: a second call on the same layout gives the same elements
+    match cell.layout.as_ref().unwrap().flatten() {
+        Ok(again) if again.len() == flat.len() && again.iter().zip(flat.iter()).all(|(a, b)| a.inner == b.inner && a.layer == b.layer) => {}
+        Ok(again) => return Err(format!("flatten() called twice on one layout gave {} and then {} elements (or different ones)", flat.len(), again.len())),
+        Err(e) => return Err(format!("flatten() succeeded, then failed when called again: {:?}", e)),
+    }
     let mut got: Vec<(usize, MShape)> = flat.iter().map(|e| (keys.iter().position(|k| *k == e.layer).unwrap_or(99), MShape::from_raw(&e.inner))).collect();
     // mirror images: a polygon under an odd number of reflections must flip its orientation —
     // implied by point-wise equality, which is what we compare (multisets per layer)
